@@ -536,27 +536,32 @@ def run_norm_out(case):
         d2 = {"tensors": [dict(t, seed=s_) for t, s_ in zip(desc["tensors"], case["other_seeds"])], "sizes": desc["sizes"],
               "exponent": case["other_exp"] if not G.net_single(desc) else 0.0}
         tn2, expo2 = build(d2)
+        if route in ("tensor_overlap_tn", "tn_overlap_tensor"):
+            if G.net_is_hyper(desc):
+                raise Reject("Tensor<->network overlap has no output_inds: plain networks only")
+            out = tuple(G.net_outer(desc))  # ... over their outer labels
+            x, mag = G.ref_value(desc, out)
+            x = x * 10.0 ** expo
         y, mag2 = G.ref_value(d2, out)
         y = y * 10.0 ** expo2
         fl = floor * mag2 * 10.0 ** expo2
-        ref = np.sum(x * np.conj(y))  # the argument is the conjugated one, in every spelling
+        # the argument is the conjugated one, in every spelling; dense operands are the harness's own tensors and get a phase,
+        # so that the inner product is not real even for real networks (which side is conjugated then matters)
+        ph1, ph2 = 0.6 + 0.8j, 0.8 - 0.6j
         if route == "overlap":
-            got = tn.overlap(tn2, output_inds=out)
+            got, ref = tn.overlap(tn2, output_inds=out), np.sum(x * np.conj(y))
         elif route == "make_overlap":
-            got = tn.make_overlap(tn2, output_inds=out).contract(all, output_inds=())
+            got, ref = tn.make_overlap(tn2, output_inds=out).contract(all, output_inds=()), np.sum(x * np.conj(y))
+        elif route == "tensor_overlap_tensor":
+            tx = Q.Tensor(np.asarray(x * ph1, dtype=np.complex128), out)
+            ty = Q.Tensor(np.asarray(y * ph2, dtype=np.complex128), out)
+            got, ref = tx.overlap(ty), np.sum((x * ph1) * np.conj(y * ph2))
+        elif route == "tensor_overlap_tn":
+            tx = Q.Tensor(np.asarray(x * ph1, dtype=np.complex128), out)
+            got, ref = tx.overlap(tn2), np.sum((x * ph1) * np.conj(y))
         else:
-            # Tensor-level spellings: the dense tensors the two networks denote over `out`
-            dt = np.complex128 if (np.iscomplexobj(x) or np.iscomplexobj(y)) else np.float64
-            tx = Q.Tensor(np.asarray(x, dtype=np.complex128), out)
-            ty = Q.Tensor(np.asarray(y, dtype=np.complex128), out)
-            if route == "tensor_overlap_tensor":
-                got = tx.overlap(ty)
-            elif G.net_is_hyper(desc) or set(out) != set(G.net_outer(desc)):
-                raise Reject("Tensor<->network overlap has no output_inds: only plain networks over their outer labels")
-            elif route == "tensor_overlap_tn":
-                got = tx.overlap(tn2)
-            else:
-                got = tn.overlap(ty)
+            ty = Q.Tensor(np.asarray(y * ph2, dtype=np.complex128), out)
+            got, ref = tn.overlap(ty), np.sum(x * np.conj(y * ph2))
     e = rel_err(np.array(complex(got)), np.array(ref), floor=fl)
     if not e <= tol:
         raise Violation("value", err=e, **info)
